@@ -559,5 +559,5 @@ package core
 //@   modifies @NEXT_INVOKE
 //@   loop 1 invariant 0 <= i && len(clientContext.ReturnType) == n && clientContext != nil && forall(k, 0, i, ival(clientContext.ReturnType[k]) == type_out(ival(t), k))
 //@   atcall InvokeContext [declared_result_types_are_this_methods] clientContext != nil &&
-//@       len(clientContext.ReturnType) == type_numout(ival(t)) - ite(type_numout(ival(t)) > 0 && ival(clientContext.ReturnType[type_numout(ival(t)) - 1]) == ival(errorType), 1, 0) &&
+//@       len(clientContext.ReturnType) == type_numout(ival(t)) - ite(type_numout(ival(t)) > 0 && same(clientContext.ReturnType[type_numout(ival(t)) - 1], errorType), 1, 0) &&
 //@       forall(k, 0, len(clientContext.ReturnType), ival(clientContext.ReturnType[k]) == type_out(ival(t), k))
